@@ -19,7 +19,7 @@ import Mathlib.Algebra.Order.Field.Basic
 
 set_option linter.unusedSectionVars false
 
-namespace Mahotas.C17.Round
+namespace Mahotas.C17.RT
 open Mahotas Mahotas.C17
 
 /-- a value of `K` computed in rounded arithmetic -/
@@ -413,7 +413,7 @@ theorem abs_waveletRow_le (cs : List K) (N : Nat) (f : Nat → K) (M : K) (hM : 
   · split
     · rw [foldl_add_eq, zeroK, zero_add]
       refine le_trans (abs_listsum_le _ _ _ M (fun ci => abs_access_le N f M hM hf _)) ?_
-      simp only [zeroK, abs_ite_neg]
+      simp only [abs_ite_neg]
       exact le_rfl
     · rw [zeroK, abs_zero]; positivity
 
@@ -614,4 +614,4 @@ theorem forward_2d {u : K} (hu : 0 ≤ u) (hfl : ∀ x, |fl x - x| ≤ u * |x|) 
 
 end
 
-end Mahotas.C17.Round
+end Mahotas.C17.RT
